@@ -44,7 +44,8 @@ def spec():
             "get": {"operationId": "getItem", "parameters": [_p("page-size", "query", schema={"type": "integer"}), _p("q", "query", True),
                                                               _p("X-Trace", "header"), _p("class", "query"), _p("sid", "cookie")],
                     "responses": {"200": ok}},
-            "delete": {"operationId": "deleteItem", "parameters": [_p("X-Reason", "header", True)], "responses": {"204": {"description": "gone"}}},
+            # `tenant` is declared at path level (optional) and again here (required): the operation-level one overrides it
+            "delete": {"operationId": "deleteItem", "parameters": [_p("X-Reason", "header", True), _p("tenant", "query", True)], "responses": {"204": {"description": "gone"}}},
         },
         "/shops/{shop-id}/items/{n}": {"patch": {"operationId": "patchShopItem", "parameters": [_p("shop-id", "path", True), _p("n", "path", True, {"type": "integer"})],
                                                  "requestBody": {"required": True, "content": jitem}, "responses": {"200": ok}}},
@@ -85,7 +86,7 @@ OPS = {
         ("page_size", "page-size", "query", False, "int"), ("x_trace", "X-Trace", "header", False, "str"),
         ("class_", "class", "query", False, "str"), ("sid", "sid", "cookie", False, "str")], body=None),
     "delete_item": dict(method="DELETE", path="/items/{itemId}", params=[
-        ("item_id", "itemId", "path", True, "str"), ("x_reason", "X-Reason", "header", True, "str"), ("tenant", "tenant", "query", False, "str")], body=None, status=204),
+        ("item_id", "itemId", "path", True, "str"), ("x_reason", "X-Reason", "header", True, "str"), ("tenant", "tenant", "query", True, "str")], body=None, status=204),
     "patch_shop_item": dict(method="PATCH", path="/shops/{shop-id}/items/{n}", params=[
         ("shop_id", "shop-id", "path", True, "str"), ("n", "n", "path", True, "int")], body=("body", "json", "item")),
     "create_item": dict(method="POST", path="/items", params=[("dry_run", "dryRun", "query", False, "bool")], body=("body", "json", "item"), status=201),
